@@ -446,6 +446,10 @@ class PDFPageInterpreter:
         """Initialize the text and graphic states for rendering a page."""
         # gstack: stack for graphical states.
         self.gstack: List[Tuple[Matrix, PDFTextState, PDFGraphicState]] = []
+        # csstack: the colour spaces saved together with each graphical state.
+        self.csstack: List[
+            Tuple[Optional[PDFColorSpace], Optional[PDFColorSpace]]
+        ] = []
         self.ctm = ctm
         self.device.set_ctm(self.ctm)
         self.textstate = PDFTextState()
@@ -482,11 +486,15 @@ class PDFPageInterpreter:
     def do_q(self) -> None:
         """Save graphics state"""
         self.gstack.append(self.get_current_state())
+        self.csstack.append((self.scs, self.ncs))
 
     def do_Q(self) -> None:
         """Restore graphics state"""
         if self.gstack:
             self.set_current_state(self.gstack.pop())
+        if self.csstack:
+            # The current colour spaces are part of the graphics state.
+            (self.scs, self.ncs) = self.csstack.pop()
 
     def do_cm(
         self,
